@@ -223,6 +223,20 @@ class WorkerSim:
                 return True
         return False
 
+    def main_micro(self):
+        """ONE resumption of the main thread (it parks again at its next full lock release / blocked wait / send):
+        finer than main_step, used by the race search only"""
+        if self.dead or not self.main.runnable():
+            return False
+        head = self.inter.torun._items[0] if self.inter.torun._items else None
+        n0 = len(self.inter.torun._items)
+        self.main.resume()
+        if len(self.inter.torun._items) < n0:
+            self.popped.append(head)
+        if self.main.exc:
+            raise self.main.exc
+        return True
+
     def crash(self, from_inside=False):
         if self.dead:
             return
